@@ -313,6 +313,9 @@ type Act struct {
 	End    uint64
 	Str    string
 	Wal    *In // for Kind "W": the entry as the input that ProcessWAL would be given on replay
+	// Flush: what the REAL action's RequiresWALFlush() says (the driver flushes the WAL right before
+	// executing such an action); the simulator's crash model uses it, the oracle does not
+	Flush bool
 }
 
 func idS(id *Hsh) (string, uint64, bool) {
@@ -399,6 +402,7 @@ func canonActions(as []actions.Action[Val, Hsh, Adr]) ([]Act, string) {
 	strs := make([]string, len(as))
 	for i, a := range as {
 		out[i] = canonAction(a)
+		out[i].Flush = a != nil && a.RequiresWALFlush()
 		strs[i] = out[i].Str
 	}
 	if len(strs) == 0 {
